@@ -38,7 +38,7 @@ static double wall_now() {
 
 // ---------------------------------------------------------------------------
 // run one spec in a forked child and parse the result
-static int g_child_timeout_s = 60;
+static int g_child_timeout_s = 150;
 
 static bool parse_result(const std::string& txt, RunResult& r) {
   size_t pos = 0;
